@@ -387,6 +387,12 @@ def run(repo, rep, tier):
                      "overwrite each other's intermediate data under the threaded scheduler", list(e0.via))
     rep.ok("R-C07-5", "package", f"{nk} kernels, {len(reach)} functions reachable from them", "no write to module-level objects or mutable defaults")
     process_wide_settings_in_kernels(repo, rep, eng, reach, "R-C07-8")
+    rep.rule("R-C07-9", "(shared with C17) no computational entry point writes into a buffer it shares with its input: an in-place write through a view "
+                        "(`v = x.isel(..); v *= 0`) reaches the input only when the data is held in memory - on dask-backed data the same statement builds a "
+                        "new lazy array - so the lazy and the in-memory result differ")
+    from .c17 import python_part
+    python_part(repo, rep, eng, 0, "R-C07-9", only=lambda fi: fi.module.name.startswith(
+        ("wavespectra.core.utils", "wavespectra.core.select", "wavespectra.specarray", "wavespectra.partition.", "wavespectra.core.xrstats")))
     cnative_wrapper_state(wrap, rep, "R-C07-5")
     # threads spawned in C
     for tok in ("pthread_create", "omp parallel", "#pragma omp", "thrd_create"):
